@@ -15,6 +15,13 @@ UmGen/HostileCfg.lean (namespace Um.Gen.Hostile):
     range only up to `SLOT_NUM - 1` (the F16e fix, /verif/.build/patches/f16e.diff);
   * `compressedCompact` — `ProxyClusterMeta::from_resp` compacts the range lists of a compressed
     (serde) `UMCTL SETCLUSTER` (/verif/.build/patches/C14-compressed-meta-compact.diff);
+  * `clusterNameAscii` — `ClusterName::try_from` admits ASCII alphanumerics and `@-_` only (then `gen_node_id`'s
+    `String::truncate(24)` is always on a char boundary); `false` when it uses `char::is_alphanumeric`;
+  * `umctlCountPrealloc` — always `false`: the UMCTL parsers (src/common/proto.rs, src/common/cluster.rs,
+    src/replication/replicator.rs, src/migration/task.rs, non-test code) contain exactly the pinned reservations
+    `Vec::with_capacity(arr.len().saturating_sub(2))` (×2, bounded by the real element count) and
+    `vec![false; map_len]` (RangeMap, see `rangeMapBounded`); any other `with_capacity` / `reserve` / `vec![_; n]`
+    (e.g. one sized by a client-declared count such as `peer_num`) is refused;
   * `overflowChecks` — `[profile.release] overflow-checks` of /repo/Cargo.toml (absent ⇒ `false`:
     `3 + key_num` wraps);
   * constants: `CLUSTER_NAME_MAX_LENGTH`, `MAX_ELEMENT_LENGTH`, `LOG_ELEMENT_NUMBER`,
@@ -149,6 +156,54 @@ def gen_hostilecfg():
         raise ExtractError(f"{p}: compaction of the compressed form has an unknown shape")
     out.append(f"/-- the compressed (serde) SETCLUSTER form is compacted like the textual one (C14 patch) — {p} -/")
     out.append(f"def compressedCompact : Bool := {_b(cc)}")
+    # --- ClusterName alphabet and gen_node_id ---------------------------------------------------------------
+    p = "src/common/cluster.rs"
+    tc = src(p)
+    m = re.search(r"impl TryFrom<&str> for ClusterName \{", tc)
+    if not m:
+        raise ExtractError(f"{p}: impl TryFrom<&str> for ClusterName not found")
+    tf = _sq(fn_body(tc[m.end():], "try_from", p))
+    ascii_ = "if c.is_ascii_alphanumeric() || c == '@' || c == '-' || c == '_' { continue; }" in tf
+    uni = "if c.is_alphanumeric() || c == '@' || c == '-' || c == '_' { continue; }" in tf
+    if ascii_ == uni or "ClusterNameInner::from(s)" not in tf:
+        raise ExtractError(f"{p}: ClusterName::try_from has an unknown shape")
+    out.append(f"/-- `ClusterName::try_from` admits ASCII alphanumerics and `@-_` only — {p} -/")
+    out.append(f"def clusterNameAscii : Bool := {_b(ascii_)}")
+    p = "src/proxy/cluster.rs"
+    gn = _sq(fn_body(src(p), "gen_node_id", p))
+    if 'let mut name_seg = format!("{:_<24}", cluster_name.to_string()); name_seg.truncate(24);' not in gn:
+        raise ExtractError(f"{p}: gen_node_id has an unknown shape")
+    out.append(f"def NODE_ID_NAME_LEN : Nat := 24  -- {p} gen_node_id")
+    # --- reservations of the UMCTL parsers ---------------------------------------------------------------------
+    pinned = {"src/common/proto.rs": ["Vec::with_capacity(arr.len().saturating_sub(2))"],
+              "src/replication/replicator.rs": ["Vec::with_capacity(arr.len().saturating_sub(2))"],
+              "src/common/cluster.rs": ["vec![false; map_len]"],
+              "src/migration/task.rs": []}
+    for fp, allowed in pinned.items():
+        code = strip_comments(src(fp)).split("#[cfg(test)]")[0]
+        found = []
+        for mm in re.finditer(r"(?:\w+::)?with_capacity\(|\.reserve(?:_exact)?\(|vec!\[", code):
+            i = mm.end() - 1
+            op, cl = (code[i], ")" if code[i] == "(" else "]")
+            depth, j = 0, i
+            while j < len(code):
+                if code[j] == op:
+                    depth += 1
+                elif code[j] == cl:
+                    depth -= 1
+                    if depth == 0:
+                        break
+                j += 1
+            text = code[mm.start():j + 1]
+            if text.startswith("vec![") and ";" not in text:
+                continue                      # a literal list, not a sized one
+            found.append(text)
+        found = [_sq(x) for x in found]
+        if sorted(found) != sorted(allowed):
+            raise ExtractError(f"{fp}: reservations in the UMCTL parsers are {found}, pinned {allowed} "
+                               f"(a capacity taken from a client-declared count must not be reserved before the items are read)")
+    out.append("/-- no UMCTL parser reserves memory proportional to a client-declared count (pinned shapes) -/")
+    out.append("def umctlCountPrealloc : Bool := false")
     # --- constants ----------------------------------------------------------------------------------
     p = "src/common/cluster.rs"
     out.append(f"def CLUSTER_NAME_MAX_LENGTH : Nat := {const_num(src(p), 'CLUSTER_NAME_MAX_LENGTH', p)}  -- {p}")
